@@ -147,6 +147,10 @@ INT_RANGE = {'u8': (0, 255), 'u16': (0, 65535), 'u32': (0, 2**32 - 1), 'u64': (0
 UNIT = ('tuple', ())
 TRUE, FALSE = ('lit', True), ('lit', False)
 
+def int_log2(x):
+    """floor(log2 x) of the integer x > 0 (what `ilog2` answers: the position of the highest set bit); None for x <= 0"""
+    return x.bit_length() - 1 if x > 0 else None
+
 def lit(v):
     if isinstance(v, list):
         v = bytes(v)
@@ -2355,6 +2359,15 @@ def builtin_summary(I, cal, args, node, st):
             x = args[0][1] & ((1 << bits) - 1)
             r = {'leading_zeros': bits - x.bit_length(), 'trailing_zeros': (bits if x == 0 else (x & -x).bit_length() - 1), 'count_ones': bin(x).count('1')}[name]
             return [Out('val', ('lit', r), st)]
+    if name in ('ilog2', 'checked_ilog2') and cal.startswith('core::num::<impl ') and len(args) == 1 and args[0][0] == 'lit' and isinstance(args[0][1], int) and not isinstance(args[0][1], bool):
+        # ilog2(x) = floor(log2 x) = bit length of x minus one for every x > 0; for x <= 0 ilog2 panics (in every build profile) and
+        # checked_ilog2 answers None
+        r = int_log2(args[0][1])
+        if name == 'checked_ilog2':
+            return [Out('val', ('ctor', 'Some', (('lit', r),)) if r is not None else ('ctor', 'None', ()), st)]
+        if r is None:
+            return [Out('div', UNIT, st.event(('panic', cal, tuple(args), node)))]
+        return [Out('val', ('lit', r), st)]
     if name in ('is_negative', 'is_positive') and cal.startswith('core::num::<impl i') and len(args) == 1:
         x = args[0]
         return [Out('val', bin_term('Lt', x, ('lit', 0)) if name == 'is_negative' else bin_term('Gt', x, ('lit', 0)), st)]
